@@ -133,7 +133,23 @@ class Effects:
             for s in self.direct.get(k, []):
                 if s.ev.data.get('shared'):
                     out.append((s, chain))
+            # constructor calls: stores into the object under construction are stores into a fresh object
+            ctor_targets = set()
+            for c in self.calls.get(k, []):
+                if c.data.get('via') == 'ctor':
+                    for t in c.data.get('targets', []):
+                        ctor_targets.add(self.key(t))
+            other_targets = set()
+            for c in self.calls.get(k, []):
+                if c.data.get('via') != 'ctor':
+                    for t in c.data.get('targets', []):
+                        other_targets.add(self.key(t))
             for c in sorted(self.callees.get(k, ())):
+                if c in ctor_targets and c not in other_targets:
+                    f_ = self.prog.functions.get(c.split('#')[0])
+                    if f_ is not None:
+                        out.extend((w, chain + ch) for w, ch in self._ctor_writes(f_, (c,), set()))
+                        continue
                 stack.append((c, chain + (c,)))
         self._trans[k0] = out
         return out
